@@ -94,52 +94,6 @@ Qed.
 Lemma budget_ml : forall s s' o, reqs s' = reqs s -> Forall ml_out o -> budget_ok s s' o.
 Proof. intros. apply budget_frame; [assumption|]. intros q. apply ncomp_ml. assumption. Qed.
 
-Lemma continue_backlog_budget : forall s r s' o, _continue_backlog s r = (s', o) -> budget_ok s s' o.
-Proof. intros s r s' o H. apply continue_backlog_frame in H. apply budget_ml; apply H. Qed.
-Lemma send_initially_budget : forall s r w m s' o, _send_initially s r w m = (s', o) -> budget_ok s s' o.
-Proof. intros s r w m s' o H. apply send_initially_frame in H. destruct H as (_ & H & _ & ->). apply budget_ml; [exact H|repeat constructor]. Qed.
-Lemma remove_exchange_budget : forall s r w s' o, _remove_exchange s r w = (s', o) -> budget_ok s s' o.
-Proof.
-  intros s r w s' o H. unfold _remove_exchange in H.
-  destruct (exchanges s); [|invpairs; apply budget_refl].
-  destruct (alookup rm_eqb (r, w_mid w) l); [|invpairs; apply budget_refl].
-  destruct (if w_mtype w =? RST then _ else _) as [s2 o2] eqn:A.
-  destruct (_continue_backlog s2 r) as [s3 o3] eqn:C. apply continue_backlog_budget in C. invpairs.
-  eapply budget_trans; [|exact C].
-  destruct (w_mtype w =? RST).
-  - apply add_event_budget in A. intros q. specialize (A q). exact A.
-  - invpairs. intros q. cbn. unfold pend, get_req. cbn. lia.
-Qed.
-Lemma process_response_budget : forall s r w b s' o, process_response s r w = (b, s', o) -> budget_ok s s' o.
-Proof.
-  intros s r w b s' o H. unfold process_response in H.
-  destruct (outgoing s); [|invpairs; apply budget_frame; [reflexivity|reflexivity]].
-  destruct (alookup key_eqb _ l); [|invpairs; apply budget_refl].
-  destruct (add_response _ z w r _) as [s2 o2] eqn:A. apply add_event_budget in A. invpairs.
-  intros q. specialize (A q). destruct (negb _); exact A.
-Qed.
-Lemma dispatch_message_budget : forall s r mcl w s' o, dispatch_message s r mcl w = (s', o) -> budget_ok s s' o.
-Proof.
-  intros s r mcl w s' o H. unfold dispatch_message in H.
-  destruct (is_request (w_code w)). { invpairs. apply budget_frame; reflexivity. }
-  destruct (if (w_mtype w =? ACK) || (w_mtype w =? RST) then _ else _) as [s1 o1] eqn:RE.
-  assert (B1 : budget_ok s s1 o1).
-  { destruct ((w_mtype w =? ACK) || (w_mtype w =? RST)); [eapply remove_exchange_budget; eauto|invpairs; apply budget_refl]. }
-  destruct ((w_code w =? EMPTY) && (w_mtype w =? CON)).
-  { destruct (_send_initially s1 r _ None) as [s2 o2] eqn:S. apply send_initially_budget in S. invpairs. eapply budget_trans; eauto. }
-  destruct ((w_code w =? EMPTY) && ((w_mtype w =? ACK) || (w_mtype w =? RST))). { invpairs. exact B1. }
-  destruct (is_response (w_code w) && _); [|invpairs; exact B1].
-  destruct (process_response s1 r w) as [[b s2] o2] eqn:P. apply process_response_budget in P.
-  destruct b.
-  - destruct (w_mtype w =? CON).
-    + destruct (_send_initially s2 r _ None) as [s3 o3] eqn:S. apply send_initially_budget in S. invpairs.
-      eapply budget_trans; [exact B1|eapply budget_trans; eauto].
-    + invpairs. eapply budget_trans; eauto.
-  - destruct ((w_mtype w =? CON) && negb mcl).
-    + destruct (_send_initially s2 r _ None) as [s3 o3] eqn:S. apply send_initially_budget in S. invpairs.
-      eapply budget_trans; [exact B1|eapply budget_trans; eauto].
-    + invpairs. eapply budget_trans; eauto.
-Qed.
 Lemma run_stoppers_budget : forall e qs s s' o, run_stoppers s qs e = (s', o) -> budget_ok s s' o.
 Proof.
   intros e. induction qs as [|q rest IH]; intros s s' o H; cbn [run_stoppers] in H; [invpairs; apply budget_refl|].
@@ -157,12 +111,88 @@ Proof.
   destruct (tm_dispatch_error s k r) as [s1 o1] eqn:T.
   apply tm_dispatch_error_budget in T. invpairs. intros q. specialize (T q). exact T.
 Qed.
+Lemma budget_same_reqs : forall s s1 s' o, reqs s1 = reqs s -> budget_ok s1 s' o -> budget_ok s s' o.
+Proof. intros s s1 s' o R H q. specialize (H q). unfold pend, get_req in *. rewrite R in H. exact H. Qed.
+Lemma send_via_transport_budget : forall s r w s' o, _send_via_transport s r w = (s', o) -> budget_ok s s' o.
+Proof.
+  intros s r w s' o H. unfold _send_via_transport in H. destruct (refuses s r); [eapply mm_dispatch_error_budget; eauto|].
+  invpairs. apply budget_frame; reflexivity.
+Qed.
+Lemma send_initially_budget : forall s r w m s' o, _send_initially s r w m = (s', o) -> budget_ok s s' o.
+Proof.
+  intros s r w m s' o H. unfold _send_initially in H. apply send_via_transport_budget in H.
+  eapply budget_same_reqs; [|exact H]. destruct (w_mtype w =? CON); [destruct m|]; try reflexivity. apply add_exchange_frame.
+Qed.
+Lemma continue_loop_budget : forall r fuel s s' o x, _continue_backlog_loop fuel s r = (s', o, x) -> budget_ok s s' o.
+Proof.
+  intros r. induction fuel as [|f IH]; intros s s' o x H; cbn [_continue_backlog_loop] in H; [invpairs; apply budget_refl|].
+  destruct (exchanges s); [|invpairs; apply budget_refl]. destruct (has_exchange r l); [invpairs; apply budget_refl|].
+  destruct (alookup Z.eqb r (backlogs s)) as [[|[w m] rest]|]; try (invpairs; apply budget_frame; reflexivity).
+  destruct (_send_initially _ r w (Some m)) as [s1 o1] eqn:S. apply send_initially_budget in S.
+  destruct (_continue_backlog_loop f s1 r) as [[s2 o2] x2] eqn:L. apply IH in L. invpairs.
+  eapply budget_trans; [|exact L]. eapply budget_same_reqs; [|exact S]. reflexivity.
+Qed.
+Lemma continue_backlog_budget : forall s r s' o x, _continue_backlog s r = (s', o, x) -> budget_ok s s' o.
+Proof.
+  intros s r s' o x H. unfold _continue_backlog in H. destruct (alookup Z.eqb r (backlogs s)).
+  - eapply continue_loop_budget; eauto.
+  - invpairs. apply budget_frame; reflexivity.
+Qed.
+Lemma remove_exchange_budget : forall s r w s' o x, _remove_exchange s r w = (s', o, x) -> budget_ok s s' o.
+Proof.
+  intros s r w s' o x H. unfold _remove_exchange in H.
+  destruct (exchanges s); [|invpairs; apply budget_refl].
+  destruct (alookup rm_eqb (r, w_mid w) l); [|invpairs; apply budget_refl].
+  destruct (if w_mtype w =? RST then _ else _) as [s2 o2] eqn:A.
+  destruct (_continue_backlog s2 r) as [[s3 o3] x3] eqn:C. apply continue_backlog_budget in C. invpairs.
+  eapply budget_trans; [|exact C].
+  destruct (w_mtype w =? RST).
+  - apply add_event_budget in A. intros q. specialize (A q). exact A.
+  - invpairs. intros q. cbn. unfold pend, get_req. cbn. lia.
+Qed.
+Lemma process_response_budget : forall s r w b s' o, process_response s r w = (b, s', o) -> budget_ok s s' o.
+Proof.
+  intros s r w b s' o H. unfold process_response in H.
+  destruct (outgoing s); [|invpairs; apply budget_frame; [reflexivity|reflexivity]].
+  destruct (alookup key_eqb _ l); [|invpairs; apply budget_refl].
+  destruct (add_response _ z w r _) as [s2 o2] eqn:A. apply add_event_budget in A. invpairs.
+  intros q. specialize (A q). destruct (negb _); exact A.
+Qed.
+Lemma dispatch_message_budget : forall s r mcl w s' o, dispatch_message s r mcl w = (s', o) -> budget_ok s s' o.
+Proof.
+  intros s r mcl w s' o H. unfold dispatch_message in H.
+  destruct (is_request (w_code w)). { invpairs. apply budget_frame; reflexivity. }
+  destruct (if (w_mtype w =? ACK) || (w_mtype w =? RST) then _ else _) as [[s1 o1] x1] eqn:RE.
+  assert (B1 : budget_ok s s1 o1).
+  { destruct ((w_mtype w =? ACK) || (w_mtype w =? RST)); [eapply remove_exchange_budget; eauto|invpairs; apply budget_refl]. }
+  destruct x1. { invpairs. exact B1. }
+  destruct ((w_code w =? EMPTY) && (w_mtype w =? CON)).
+  { destruct (_send_initially s1 r _ None) as [s2 o2] eqn:S. apply send_initially_budget in S. invpairs. eapply budget_trans; eauto. }
+  destruct ((w_code w =? EMPTY) && ((w_mtype w =? ACK) || (w_mtype w =? RST))). { invpairs. exact B1. }
+  destruct (is_response (w_code w) && _); [|invpairs; exact B1].
+  destruct (process_response s1 r w) as [[b s2] o2] eqn:P. apply process_response_budget in P.
+  destruct b.
+  - destruct (w_mtype w =? CON).
+    + destruct (_send_initially s2 r _ None) as [s3 o3] eqn:S. apply send_initially_budget in S. invpairs.
+      eapply budget_trans; [exact B1|eapply budget_trans; eauto].
+    + invpairs. eapply budget_trans; eauto.
+  - destruct ((w_mtype w =? CON) && negb mcl).
+    + destruct (_send_initially s2 r _ None) as [s3 o3] eqn:S. apply send_initially_budget in S. invpairs.
+      eapply budget_trans; [exact B1|eapply budget_trans; eauto].
+    + invpairs. eapply budget_trans; eauto.
+Qed.
 Lemma retransmit_budget : forall s r mid s' o, _retransmit s r mid = (s', o) -> budget_ok s s' o.
 Proof.
   intros s r mid s' o H. unfold _retransmit in H. destruct (exchanges s); [|invpairs; apply budget_refl].
   destruct (alookup rm_eqb (r, mid) l); [|invpairs; apply budget_frame; reflexivity].
-  destruct (ex_counter e <? 4); [invpairs; apply budget_frame; reflexivity|].
-  apply tm_dispatch_error_budget in H. intros q. specialize (H q). exact H.
+  destruct (ex_counter e <? 4).
+  - destruct (_send_via_transport _ r (ex_msg e)) as [s2 o2] eqn:S. apply send_via_transport_budget in S.
+    assert (B : budget_ok s s2 o2) by (eapply budget_same_reqs; [|exact S]; reflexivity).
+    destruct (exchanges s2); invpairs.
+    + intros q. specialize (B q). exact B.
+    + eapply budget_trans; [exact B|apply budget_frame; reflexivity].
+  - destruct (amem Z.eqb r _); [|invpairs; apply budget_frame; reflexivity].
+    apply tm_dispatch_error_budget in H. intros q. specialize (H q). exact H.
 Qed.
 Lemma tm_shutdown_loop_budget : forall fuel s s' o, tm_shutdown_loop fuel s = (s', o) -> budget_ok s s' o.
 Proof.
@@ -243,6 +273,7 @@ Proof.
   - eapply mm_dispatch_error_budget; eauto.
   - eapply cancel_budget; eauto.
   - invpairs. intros q'. rewrite obs_cancel_pend. cbn. lia.
+  - invpairs. apply budget_frame; reflexivity.
   - eapply shutdown_budget; eauto.
 Qed.
 
